@@ -225,11 +225,29 @@ def run(chk, tier, only_rule=None):
             seen = g.reachable_from(mn, avoid=[x for x in returns + others + good])
             # reached without logging: next iteration of the loop or the normal end of the function
             leak = loop.id in seen or any(p.id in seen and p.kind != 'return' for p in g.exit_return.pred)
+            # ... nor may anything that can fail stand between the mutation and its undo entry: an error return or another mutation reached
+            # before the entry is logged leaves a change the rollback does not know about.  The mutation's own failure branch (the first
+            # test of the error code it was given) is exempt: a failed call has changed nothing.
+            own_fail = []
+            ecarg = A.strip(args[-1], casts=True) if args else None
+            if ecarg is not None and ecarg.get('k') == 'DeclRefExpr':
+                order = {nd.id: i_ for i_, nd in enumerate(g.rpo)}
+                tests = [nd for nd in g.rpo if nd.kind == 'cond' and isinstance(nd.ast, dict) and order[nd.id] > order[mn.id] and g.dominates(mn, nd) and
+                         any(y.get('k') == 'DeclRefExpr' and y.get('id') == ecarg.get('id') for y in A.walk(nd.ast))]
+                if tests:
+                    first = min(tests, key=lambda nd: order[nd.id])
+                    own_fail = [e for e in first.succ if e.kind == 'edge' and e.label is True]
+            seen2 = g.reachable_from(mn, avoid=good + own_fail)
+            early = [r for r in returns if r.id in seen2] + [n2 for n2 in others if n2.id in seen2]
             facts_ = {'function': fn['q'], 'mutation': A.text(mc)[:80], 'line': mc.get('l'), 'inverse_required': inv, 'logged_at': [p.line for p in good]}
             if not good:
                 chk.fail('R15.1', site, fn['file'], mc.get('l'), '%s(target, %s) is never logged with its inverse (%s at %s)' % (kind, ptxt, inv, ptxt), facts_, fn['q'])
             elif leak:
                 chk.fail('R15.1', site, fn['file'], mc.get('l'), 'after %s(target, %s) a path reaches the next operation without the undo entry (%s): a later failure cannot roll it back' % (kind, ptxt, inv), facts_, fn['q'])
+            elif early:
+                what = 'returns (line %s)' % early[0].line if early[0].kind == 'return' else 'performs the next mutation of the target (line %s)' % early[0].line
+                chk.fail('R15.1', site, fn['file'], mc.get('l'), 'after a successful %s(target, %s) the function %s before the undo entry (%s) is logged: when that step fails, '
+                         'the rollback does not restore this change' % (kind, ptxt, what, inv), facts_, fn['q'])
             elif not val_ok:
                 chk.fail('R15.1', site, fn['file'], mc.get('l'), val_why or 'inverse value not established', facts_, fn['q'])
             else:
